@@ -26,20 +26,21 @@ import (
 //   - a block of an honest generator is never rejected as contradicting, and an applied block never contradicts its
 //     generator's most recent header inside the window of the chain it extends.
 type ForkChoiceMonitor struct {
-	W         *World
-	S         *Sim
-	M         *Monitor
-	Report    Reporter
-	received  map[int]map[string]int // node -> (tip id -> slot in which it came in through the consensus loop); at most the current tip
-	recBefore map[int]recEntry
-	evs       map[int][]string // node -> events since BeforeProcess ("n:<id>", "d:<id>")
-	infos     map[int][]string
-	seen      map[string][]refmodel.BFTHeader // generator -> distinct headers seen
-	queue     [][4]string
+	W            *World
+	S            *Sim
+	M            *Monitor
+	Report       Reporter
+	received     map[int]map[string]int // node -> (tip id -> slot in which it came in through the consensus loop); at most the current tip
+	recBefore    map[int]recEntry
+	everReceived map[int]map[string]int // node -> block id -> slot of its arrival through the consensus loop (since the last start)
+	evs          map[int][]string       // node -> events since BeforeProcess ("n:<id>", "d:<id>")
+	infos        map[int][]string
+	seen         map[string][]refmodel.BFTHeader // generator -> distinct headers seen
+	queue        [][4]string
 }
 
 func NewForkChoiceMonitor(w *World, m *Monitor, report Reporter) *ForkChoiceMonitor {
-	f := &ForkChoiceMonitor{W: w, S: w.S, M: m, Report: report, received: map[int]map[string]int{}, recBefore: map[int]recEntry{}, evs: map[int][]string{}, infos: map[int][]string{}, seen: map[string][]refmodel.BFTHeader{}}
+	f := &ForkChoiceMonitor{W: w, S: w.S, M: m, Report: report, received: map[int]map[string]int{}, recBefore: map[int]recEntry{}, everReceived: map[int]map[string]int{}, evs: map[int][]string{}, infos: map[int][]string{}, seen: map[string][]refmodel.BFTHeader{}}
 	for _, n := range w.S.Nodes {
 		n := n
 		prev := n.OnEventSync
@@ -70,6 +71,7 @@ func NewForkChoiceMonitor(w *World, m *Monitor, report Reporter) *ForkChoiceMoni
 			prevRestart(n)
 		}
 		delete(f.received, n.ID)
+		delete(f.everReceived, n.ID)
 	}
 	w.S.Hooks.BeforeProcess = func(n *Node) {
 		f.evs[n.ID] = nil
@@ -129,6 +131,17 @@ func (f *ForkChoiceMonitor) processed(n *Node, b *blockchain.Block, from p2p.Pee
 	}
 	f.received[n.ID] = rec
 	class := refmodel.Classify(f.fcHeader(n, tipBefore), f.fcHeader(n, b.Header), tipSlot, nowSlot)
+	// A node may also still know when it first received a block that was the tip before, stopped being it (sync,
+	// tie break) and is the tip again: a true fact about the tip, which the rule may use or not. Where the two states of
+	// knowledge lead to different classes, either reaction is right and there is no verdict.
+	if ever, ok := f.everReceived[n.ID][string(tipBefore.ID)]; ok && tipSlot == nil {
+		if alt := refmodel.Classify(f.fcHeader(n, tipBefore), f.fcHeader(n, b.Header), &ever, nowSlot); alt != class {
+			simkit.Probe("c07_receive_time_knowledge_ambiguous_no_verdict")
+			f.noteReceived(n, b, nowSlot)
+			return
+		}
+	}
+	defer f.noteReceived(n, b, nowSlot)
 	simkit.Probe("c07_classified_" + strings.ReplaceAll(class.String(), " ", "_"))
 	evs := f.evs[n.ID]
 	infos := strings.Join(f.infos[n.ID], " | ")
@@ -177,6 +190,22 @@ func (f *ForkChoiceMonitor) processed(n *Node, b *blockchain.Block, from p2p.Pee
 	case refmodel.FCDifferentChain:
 		if !strings.Contains(infos, "Detected different chain") {
 			f.report("fork-choice", "better-chain-not-followed", desc)
+		}
+	}
+}
+
+// noteReceived remembers, per node, the slot in which a block that became the tip through the consensus loop arrived
+// (forgotten at restart).
+func (f *ForkChoiceMonitor) noteReceived(n *Node, b *blockchain.Block, nowSlot int) {
+	if string(n.Tip().ID) != string(b.Header.ID) {
+		return
+	}
+	for _, e := range f.evs[n.ID] {
+		if e == "n:"+string(b.Header.ID) {
+			if f.everReceived[n.ID] == nil {
+				f.everReceived[n.ID] = map[string]int{}
+			}
+			f.everReceived[n.ID][string(b.Header.ID)] = nowSlot
 		}
 	}
 }
